@@ -182,9 +182,55 @@ func lenFacts(fe *factEngine, base ssa.Value, ins ssa.Instruction) factSet {
 // entryLenLB: a lower bound on len(v) that holds on entry to blk because
 // every path into it takes a branch that establishes it (the join of
 // `len(v) == 1 || len(v) == 2`, of a switch's cases, ...). Blocks on a cycle
-// are decided by their other predecessors (induction on the path).
+// are decided by their other predecessors (induction on the path). Where a
+// branch tests a boolean phi (go/ssa evaluates `a && b && (c || d)` in a
+// tagless switch case as a value), only the incoming edges on which the phi
+// can have the value of the edge taken are followed.
 func entryLenLB(fe *factEngine, v ssa.Value, blk *ssa.BasicBlock, visiting map[*ssa.BasicBlock]bool, depth int) int64 {
-	if len(blk.Preds) == 0 || depth > 10 {
+	return entryLenLBVia(fe, v, blk, nil, nil, false, visiting, depth)
+}
+
+// phiBranch: pred ends in an If on a boolean phi defined in pred itself;
+// returns the phi, the truth value on the edge to succ, and the indices of
+// pred's predecessors from which the phi can have that value.
+func phiBranch(pred, succ *ssa.BasicBlock) (*ssa.Phi, bool, map[int]bool) {
+	if len(pred.Instrs) == 0 || len(pred.Succs) != 2 || pred.Succs[0] == pred.Succs[1] {
+		return nil, false, nil
+	}
+	iff, ok := pred.Instrs[len(pred.Instrs)-1].(*ssa.If)
+	if !ok {
+		return nil, false, nil
+	}
+	phi, ok := iff.Cond.(*ssa.Phi)
+	if !ok || phi.Block() != pred {
+		return nil, false, nil
+	}
+	truth := pred.Succs[0] == succ
+	cands := map[int]bool{}
+	for i, e := range phi.Edges {
+		if c, isC := e.(*ssa.Const); isC && c.Value != nil && constBool(c) != truth {
+			continue
+		}
+		cands[i] = true
+	}
+	return phi, truth, cands
+}
+
+// condLenLB: what cond having the given truth value says about len(v).
+func condLenLB(fe *factEngine, cond ssa.Value, truth bool, v ssa.Value) int64 {
+	best := int64(0)
+	for _, lc := range lenCallsIn(cond, v, 0) {
+		f := factSet{"ge0": true, "lo>=0": true}
+		fe.fromCond(cond, truth, lc, f)
+		if b := boundOf(f.normalise()); b > best {
+			best = b
+		}
+	}
+	return best
+}
+
+func entryLenLBVia(fe *factEngine, v ssa.Value, blk *ssa.BasicBlock, only map[int]bool, phi *ssa.Phi, truth bool, visiting map[*ssa.BasicBlock]bool, depth int) int64 {
+	if len(blk.Preds) == 0 || depth > 16 {
 		return 0
 	}
 	// facts gathered upstream of v's definition are about an earlier
@@ -198,9 +244,25 @@ func entryLenLB(fe *factEngine, v ssa.Value, blk *ssa.BasicBlock, visiting map[*
 	visiting[blk] = true
 	defer delete(visiting, blk)
 	m := lenInf
-	for _, pred := range blk.Preds {
+	for i, pred := range blk.Preds {
+		if only != nil && !only[i] {
+			continue
+		}
 		lb := edgeLenLB(fe, pred, blk, v)
-		if up := entryLenLB(fe, v, pred, visiting, depth+1); up < lenInf && up > lb {
+		if phi != nil && i < len(phi.Edges) {
+			if _, isC := phi.Edges[i].(*ssa.Const); !isC {
+				if b := condLenLB(fe, phi.Edges[i], truth, v); b > lb {
+					lb = b
+				}
+			}
+		}
+		var up int64
+		if p2, t2, cands := phiBranch(pred, blk); p2 != nil {
+			up = entryLenLBVia(fe, v, pred, cands, p2, t2, visiting, depth+1)
+		} else {
+			up = entryLenLBVia(fe, v, pred, nil, nil, false, visiting, depth+1)
+		}
+		if up < lenInf && up > lb {
 			lb = up
 		} else if up == lenInf && lb == 0 {
 			lb = lenInf
